@@ -99,6 +99,8 @@ class T:
             return z3.SeqSort(self.args[0].z3sort())
         if k == "tuple":
             return tuple_sort(tuple(a.z3sort() for a in self.args))[0]
+        if k == "smap":
+            return z3.ArraySort(Str, z3.SeqSort(Dyn))      # str -> list of values (the lists of a defaultdict-of-lists)
         raise TypeError(f"no z3 sort for {self}")
 
     def is_smt(self):
@@ -137,7 +139,7 @@ def parse_T(s: str) -> T:
     m = re.match(r"^(ref|heap):([\w.]+)$", s)
     if m:
         return T(m.group(1), (), m.group(2))
-    if s in ("int", "bool", "str", "dyn", "float", "none", "any", "func", "ref", "arr", "unit", "char", "real"):
+    if s in ("int", "bool", "str", "dyn", "float", "none", "any", "func", "ref", "arr", "unit", "char", "real", "smap"):
         return T(s)
     # a bare class name: decided by the class table (heap or value)
     return T("class", (), s)
